@@ -425,9 +425,9 @@ def run(chk, replay=None):
     chk.coverage['translator'] = {'status': 'ok' if not info['unparsed'] else 'partial', 'definitions': len(info['defs']),
                                   'unparsed': info['unparsed'], 'conjPartnerMustBeSimple': info['flag'],
                                   'keyOptions': info['keyOptions'], 'readOptions': info['readOptions'],
-                                  'dampedSin': info['dampedSin'], 'qLoop': info['qLoop'], 'residueDivisor': info['residueDivisor'], 'make': info['make']}
-    broken = chk.lean(['Lcapy/Props/C10.lean', 'Lcapy/Props/C10b.lean', 'Lcapy/Props/C10c.lean', 'Lcapy/Props/NonVacuityC10.lean'],
-                      helper_files=['Lcapy/Proofs/ResidueSub.lean', 'Lcapy/Model/ResidueSub.lean', 'Lcapy/Proofs/Laplace.lean', 'Lcapy/Proofs/LaplaceILT.lean', 'Lcapy/Proofs/LaplaceDS.lean', 'Lcapy/Spec/Signal.lean',
+                                  'dampedSin': info['dampedSin'], 'qLoop': info['qLoop'], 'residueDivisor': info['residueDivisor'], 'make': info['make'], 'tlineEnd': info['tlineEnd']}
+    broken = chk.lean(['Lcapy/Props/C10.lean', 'Lcapy/Props/C10b.lean', 'Lcapy/Props/C10c.lean', 'Lcapy/Props/C10d.lean', 'Lcapy/Props/NonVacuityC10.lean'],
+                      helper_files=['Lcapy/Proofs/ResidueSub.lean', 'Lcapy/Model/ResidueSub.lean', 'Lcapy/Proofs/TLine.lean', 'Lcapy/Model/TLine.lean', 'Lcapy/Proofs/Laplace.lean', 'Lcapy/Proofs/LaplaceILT.lean', 'Lcapy/Proofs/LaplaceDS.lean', 'Lcapy/Spec/Signal.lean',
                                     'Lcapy/Model/ExpPoly.lean', 'Lcapy/Model/ILT.lean', 'Lcapy/Generated/ILTFlags.lean', 'Lcapy/Driver/C10.lean',
                                     'Lcapy/Driver/C09.lean'],
                       leanchecker=(chk.tier == 'thorough'))
@@ -1020,6 +1020,274 @@ def run(chk, replay=None):
                                               'model': None if mv is None else [fstr(mv[0]), fstr(mv[1])], 'lcapy': None if got is None else [fstr(got[0]), fstr(got[1])],
                                               'result': str(res)[:200]})
 
+    def pending_or_report(fid, key, rp, what):
+        """a failing case in the region of a suspected defect reported to the coordinator under the id `fid`: until
+        known-findings.json has an entry with that id it is only counted (status known -> KNOWN-FINDING through the match key,
+        status fixed -> a recurrence is a VIOLATION)"""
+        if not any(f.get('id') == fid for f in chk.findings):
+            chk.count('pending-finding', '%s %s' % (fid, what[:70]))
+            return
+        counterexamples[0] += 1
+        chk.counterexample(key, rp, what)
+
+    # ---- hyperbolic stage: lossless transmission-line forms.  With w = exp(-s T): (c cosh + d sinh)/(a cosh + b sinh) =
+    # ((c+d) + (c-d) w^2)/((a+b) + (a-b) w^2) = P(w)/Q(w) and a returned sum of delayed impulses / steps is a power series in w;
+    # the first terms of EVERY returned sum are judged exactly by the Lean oracle `seriesCheck` (theorem series_check_sound).
+    def series_terms(e, Tval, nsum):
+        """Lcapy's result -> ([(coef (re, im), k)], set of func kinds, order up to which the listed terms are complete) | (None, why)"""
+        if isinstance(e, S.Piecewise) and len(e.args) == 1:
+            e = e.args[0][0]
+        extra = e.free_symbols - {tsym}
+        sums = e.atoms(S.Sum)
+        if any(x not in [sm.limits[0][0] for sm in sums] for x in extra):
+            return None, 'free-symbol:' + ','.join(sorted(str(x) for x in extra))
+        out, kinds, complete = [], set(), None
+
+        def atom_term(term):
+            fs = [a for a in term.atoms(S.DiracDelta, S.Heaviside) if isinstance(a, S.Heaviside) or len(a.args) == 1]
+            if len(fs) != 1:
+                return 'shape'
+            f = fs[0]
+            c = S.simplify(term / f)
+            if c.has(tsym):
+                return 'shape'
+            tau = S.expand(tsym - f.args[0])
+            k = S.nsimplify(tau / S.Rational(Tval.numerator, Tval.denominator))
+            cc = Canon(S, tsym, None).num(c)
+            if tau.has(tsym) or not (k.is_Integer and k >= 0) or cc is None:
+                return 'delay-not-a-multiple-of-T:%s' % tau
+            out.append((cc, int(k)))
+            kinds.add(type(f).__name__)
+            return None
+        for term in S.Add.make_args(S.expand(e)):
+            sms = list(term.atoms(S.Sum))
+            if not sms:
+                why = atom_term(term)
+                if why:
+                    return None, why
+                continue
+            if len(sms) != 1:
+                return None, 'shape'
+            sm = sms[0]
+            pref = term / sm
+            mvar, m0, m1 = sm.limits[0]
+            if m1 != S.oo or pref.has(tsym):
+                return None, 'shape'
+            for mm in range(int(m0), int(m0) + nsum + 1):
+                inner = S.expand(pref * sm.function.subs(mvar, mm))
+                before = len(out)
+                for tt in S.Add.make_args(inner):
+                    why = atom_term(tt)
+                    if why:
+                        return None, why
+                if mm == int(m0) + nsum:          # the first omitted term: everything below its order is complete
+                    ks = [k for _, k in out[before:]]
+                    del out[before:]
+                    if ks:
+                        complete = min(ks) - 1 if complete is None else min(complete, min(ks) - 1)
+        return (out, kinds, complete), None
+
+    def hyper_case(form, a, b, c, d, T, const, over_s, kw, origin='hyperbolic-stage'):
+        def arg():
+            return '(%s)*s' % T
+        den = '((%s)*cosh(%s) + (%s)*sinh(%s))' % (a, arg(), b, arg())
+        if form == 'end':
+            body = '(%s)/%s' % (const, den)
+            P = [Fraction(0), 2 * const]
+        elif form == 'start':
+            body = '(%s)*((%s)*cosh(%s) + (%s)*sinh(%s))/%s' % (const, c, arg(), d, arg(), den)
+            P = [const * (c + d), Fraction(0), const * (c - d)]
+        elif form == 'cosh':
+            body, a, b, P = '(%s)/cosh(%s)' % (const, arg()), Fraction(1), Fraction(0), [Fraction(0), 2 * const]
+        elif form == 'sinh':
+            body, a, b, P = '(%s)/sinh(%s)' % (const, arg()), Fraction(0), Fraction(1), [Fraction(0), 2 * const]
+        else:
+            body, a, b, P = '(%s)/tanh(%s)' % (const, arg()), Fraction(0), Fraction(1), [const, Fraction(0), const]
+        Q = [a + b, Fraction(0), a - b]
+        txt = body if not over_s else '%s/s' % body
+        key = {'what': 'hyperbolic', 'form': form, 'over_s': over_s, 'matched': a == b}
+        fid = {'tanh': 'C10-F25', 'start': 'C10-F26'}.get(form)
+        rp = {'input': {'hyperbolic': {'form': form, 'a': fstr(a), 'b': fstr(b), 'c': fstr(c), 'd': fstr(d), 'T': fstr(T), 'const': fstr(const),
+                                       'over_s': over_s, 'options': kw}, 'F': txt},
+              'spec': 'with w = exp(-sT) the returned series of delayed impulses/steps is the power series of P(w)/Q(w) '
+                      '(oracle seriesCheck, theorem series_check_sound; model tline_end: tline_end_partial)', 'origin': origin}
+        chk.count('hyperbolic', '%s%s' % (form, '/s' if over_s else ''))
+        ckey = ('hyperbolic', txt, tuple(sorted((x, str(y)) for x, y in kw.items())))
+
+        def fail(what):
+            if fid:
+                pending_or_report(fid, key, rp, what)
+            else:
+                counterexamples[0] += 1
+                chk.counterexample(key, rp, what)
+        try:
+            res = lexpr(txt).inverse_laplace(**kw).sympy
+        except Exception as ex:   # noqa
+            chk.case(ckey, False)
+            chk.count('degenerate', 'lcapy-error:' + type(ex).__name__)
+            return
+        rp['lcapy'] = str(res)[:300]
+        if res.has(S.nan) or res.has(S.zoo):
+            chk.case(ckey, False)
+            chk.count('degenerate', 'hyperbolic-nan')
+            return
+        st, why = series_terms(res, T, 4)
+        if st is None:
+            chk.case(ckey, why.startswith('free-symbol') or why.startswith('delay'))
+            if why.startswith('free-symbol') or why.startswith('delay'):
+                fail('returned expression is not a series of impulses/steps delayed by multiples of T (%s)' % why)
+            else:
+                chk.count('degenerate', 'result-shape-not-canonicalised')
+            return
+        terms, kinds, complete = st
+        chk.case(ckey, True)
+        want_kind = 'Heaviside' if over_s else 'DiracDelta'
+        ttoks = ' '.join('%s %d' % (gq(cf), k) for cf, k in terms)
+        order = 8 if complete is None else complete
+        ok = drv.ask1('series.check ; %s ; %s ; %s ; %d' % (' '.join(fstr(x) for x in P), ' '.join(fstr(x) for x in Q), ttoks, order))
+        rp['terms'] = ttoks
+        rp['order'] = order
+        if kinds - {want_kind} or ok != 'true':
+            fail('inverse transform of a hyperbolic form is not the series of the input in w = exp(-sT)')
+        else:
+            chk.count('hyperbolic-oracle', form + ':ok')
+        if form == 'end':
+            mt = drv.ask1('tline.end %s %s %d' % (fstr(a), fstr(b), 4 if a != b else 1)).split(' ')
+            model = []
+            for i in range(0, len(mt) - 1, 2):
+                cv = c09.parse_val(mt[i])
+                model.append(((cv[0] * const, cv[1] * const), int(mt[i + 1])))
+            chk.coverage['correspondence']['compared'] += 1
+            if sorted(model, key=lambda x: x[1]) != sorted(terms, key=lambda x: x[1]):
+                chk.coverage['correspondence']['disagreements'] += 1
+                disagreements.append({'F': txt, 'what': 'tline_end', 'model': str(model)[:200], 'lcapy': str(terms)[:200], 'result': str(res)[:200]})
+
+    def hyper_stage():
+        def rq(nonzero=True):
+            return Fraction(rng.randint(1, 9), rng.choice([1, 1, 2]))
+        n = 4 if quick else 30
+        for i in range(n):
+            a, b = rq(), rq()
+            while a == b:
+                b = rq()
+            T = rng.choice([Fraction(1), Fraction(2), Fraction(1, 2), Fraction(3)])
+            const = rng.choice([Fraction(1), Fraction(5), Fraction(3, 2)])
+            hyper_case('end', a, b, 0, 0, T, const, i % 2 == 1, {'causal': True} if i % 4 < 2 else {})
+        hyper_case('end', Fraction(3), Fraction(3), 0, 0, Fraction(2), Fraction(1), False, {'causal': True})
+        for form in ('cosh', 'sinh', 'tanh'):
+            hyper_case(form, 0, 0, 0, 0, rng.choice([Fraction(1), Fraction(2)]), rng.choice([Fraction(1), Fraction(7)]), False, {'causal': True})
+        for i in range(2 if quick else 16):
+            a, b, c, d = rq(), rq(), rq(), rq()
+            while a == b or c == d or b * d == a * c:
+                b, d = rq(), rq()
+            hyper_case('start', a, b, c, d, Fraction(1), Fraction(1), i % 2 == 1, {'causal': True})
+
+    def shift_case(a, b):
+        """V(a*s + b): func() -> v(t/a) e^{-b t/a}/a; judged with a concrete v"""
+        etxt = 'V(%s*s + %s)' % (a, b)
+        smp = Sampler(rng, S)
+        kw = {'causal': True, 'zero_initial_conditions': False}
+        try:
+            res = lexpr(etxt).inverse_laplace(**kw).sympy
+        except Exception as ex:   # noqa
+            chk.count('degenerate', 'lcapy-error:' + type(ex).__name__)
+            return
+        for k in (0, 1):
+            al = Fraction(rng.randint(1, 4), rng.choice([1, 2]))
+            ckey = ('undef-shift', etxt, k, fstr(al))
+            try:
+                e, cn, why = concretise(res, k, al, smp)
+            except Exception as ex:   # noqa
+                chk.case(ckey, False)
+                chk.count('degenerate', 'sympy-integration:' + type(ex).__name__)
+                continue
+            Ag = [(Fraction(1), Fraction(0))]
+            for _ in range(k + 1):
+                Ag = poly_mul(Ag, [(Fraction(b) + al, Fraction(0)), (Fraction(a), Fraction(0))])
+            want = c09.parse_val(drv.ask1('rat.eval %s 0 ; 1 ; %s' % (smp.env_tokens(), ' '.join(gq(c) for c in Ag))))
+            got = c09.parse_val(drv.ask1('sig.L %s ; %s' % (smp.env_tokens(), ' '.join(cn[0])))) if cn is not None else None
+            chk.case(ckey, got is not None)
+            chk.count('undef-route', 'shift')
+            if got is None or want is None:
+                chk.count('degenerate', 'result-shape-not-canonicalised')
+                continue
+            if got != want:
+                pending_or_report('C10-F27', {'what': 'undef-product', 'route': 'shift'},
+                                  {'input': {'shift': {'a': str(a), 'b': str(b)}, 'F': etxt, 'v(t)': 't^%d e^{-%s t}/%d!' % (k, al, k)}, 'lcapy': str(res)[:200],
+                                   'with_v': str(e)[:200], 'forward': [fstr(got[0]), fstr(got[1])], 'input_value': [fstr(want[0]), fstr(want[1])],
+                                   'spec': 'ILT{V(a s + b)} = v(t/a) exp(-b t/a)/a: with a concrete v the forward transform must be G(a s + b)'},
+                                  'V(a*s+b): inverse transform has the wrong exponential weight')
+            else:
+                chk.count('undef-oracle', 'shift:ok')
+
+    # ---- symbolic damping stage: second-order sections with SYMBOLIC coefficients (multi-term damping coefficient, zeta/omega_0
+    # form, extra real pole) inverted with damping = None / 'under' / 'over'; afterwards the symbols are given rational values
+    # consistent with the option (perfect-square discriminants) and the time function must transform back to H (Lean `L`).
+    def damping_case(txt, values, Bn, An, damping, origin='damping-stage'):
+        smp = Sampler(rng, S)
+        kw = {'causal': True}
+        if damping is not None:
+            kw['damping'] = damping
+        ckey = ('damping', txt, str(damping), tuple(sorted(values.items())))
+        chk.count('symbolic-damping', '%s' % damping)
+        try:
+            res = lexpr(txt).inverse_laplace(**kw).sympy
+        except Exception as ex:   # noqa
+            chk.case(ckey, False)
+            chk.count('degenerate', 'lcapy-error:' + type(ex).__name__)
+            return
+        sub = {sy: S.Rational(Fraction(values[sy.name]).numerator, Fraction(values[sy.name]).denominator)
+               for sy in res.free_symbols if sy.name in values}
+        he = res.subs(sub)
+        key = {'what': 'roundtrip', 'symbolic': True, 'damping': str(damping)}
+        rp = {'input': {'damping_case': {'F': txt, 'values': {k: str(v) for k, v in values.items()}, 'B': [fstr(x) for x in Bn], 'A': [fstr(x) for x in An],
+                                         'damping': damping}}, 'lcapy': str(res)[:400], 'with_values': str(he)[:300], 'origin': origin,
+              'spec': 'for symbolic coefficients and every damping option the returned time function, with the symbols given values '
+                      'consistent with the option, transforms back to H(s) (theorems ilt_executed_laplace / pf_check_sound on numeric data)'}
+        if he.free_symbols - {tsym} or he.has(S.nan) or he.has(S.zoo):
+            chk.case(ckey, True)
+            counterexamples[0] += 1
+            chk.counterexample(key, rp, 'symbolic inverse transform does not evaluate at admissible coefficient values')
+            return
+        cnv = Canon(S, tsym, smp)
+        cn = cnv.items(S.simplify(he)) or cnv.items(he)
+        want = c09.parse_val(drv.ask1('rat.eval %s 0 ; %s ; %s' % (smp.env_tokens(), ' '.join(fstr(x) for x in Bn), ' '.join(fstr(x) for x in An))))
+        if cn is None or want is None:
+            chk.case(ckey, False)
+            chk.count('degenerate', 'result-shape-not-canonicalised')
+            if len(chk.coverage['correspondence']['diagnostics']) < 8:
+                chk.coverage['correspondence']['diagnostics'].append('damping not canonicalised (%s): %s -> %s' % (getattr(cnv, 'why', '?'), txt, str(he)[:160]))
+            return
+        got = c09.parse_val(drv.ask1('sig.L %s ; %s' % (smp.env_tokens(), ' '.join(cn[0]))))
+        chk.case(ckey, True)
+        if got != want:
+            counterexamples[0] += 1
+            rp['forward'] = None if got is None else [fstr(got[0]), fstr(got[1])]
+            rp['input_value'] = [fstr(want[0]), fstr(want[1])]
+            chk.counterexample(key, rp, 'symbolic inverse transform (damping option) does not transform back to the input')
+        else:
+            chk.count('symbolic-damping-oracle', 'ok')
+
+    def damping_stage():
+        F = Fraction
+        for damping in (None, 'under', 'over'):
+            under = damping != 'over'
+            sg = F(rng.randint(2, 4))                      # half the damping coefficient
+            r = F(rng.randint(1, 3)) if under else F(rng.randint(1, int(sg) - 1))
+            q = sg * sg + r * r if under else sg * sg - r * r
+            a1 = F(rng.randint(1, int(2 * sg) - 1))
+            # multi-term damping coefficient
+            damping_case('(s + 3)/(s**2 + (a + c)*s + b)', {'a': a1, 'c': 2 * sg - a1, 'b': q}, [F(3), F(1)], [q, 2 * sg, F(1)], damping)
+            # symbolic numerator, single-term coefficient
+            damping_case('(e*s + 1)/(s**2 + a*s + b)', {'a': 2 * sg, 'b': q, 'e': F(2)}, [F(1), F(2)], [q, 2 * sg, F(1)], damping)
+            if not quick or damping != None:
+                z, w0 = (F(3, 5), F(5)) if under else (F(5, 3), F(3))
+                damping_case('1/(s**2 + 2*zeta*omega_0*s + omega_0**2)', {'zeta': z, 'omega_0': w0}, [F(1)], [w0 * w0, 2 * z * w0, F(1)], damping)
+            if not quick:
+                dd = F(rng.randint(5, 7))
+                damping_case('(s + 3)/((s**2 + (a + c)*s + b)*(s + d))', {'a': a1, 'c': 2 * sg - a1, 'b': q, 'd': dd}, [F(3), F(1)],
+                             [q * dd, q + 2 * sg * dd, 2 * sg + dd, F(1)], damping)
+
     def undef_stage():
         one = (Fraction(1), Fraction(0))
         zero = (Fraction(0), Fraction(0))
@@ -1040,6 +1308,8 @@ def run(chk, replay=None):
             tm = gen.build('undef:' + kd, poles, B=[gen.rcoef(nonzero=True)], lc=Fraction(1), T=Fraction(0))
             undef_case('conv', tm['txt'], tm['B'], tm['A'], 0, Fraction(1))
         # composite forms (oracle only): polynomial and improper factors expand into derivative + convolution terms
+        shift_case(2, 3)
+        shift_case(1, 1)
         undef_case('mixed', '(2*s + 1)', [one, (Fraction(2), Fraction(0))], [one], 1, Fraction(1))
         undef_case('mixed', '((s + 3)/(s + 1))', [(Fraction(3), Fraction(0)), one], [one, one], 1, Fraction(1))
         if not quick:
@@ -1057,6 +1327,18 @@ def run(chk, replay=None):
             cp = inp['cache_pair']
             chk.coverage['replayed'] = cp
             cache_pair(cp['expr'], cp['first'], cp['second'], 'replay')
+        if 'damping_case' in inp:
+            dcs = inp['damping_case']
+            chk.coverage['replayed'] = dcs
+            damping_case(dcs['F'], {k: Fraction(v) for k, v in dcs['values'].items()}, [Fraction(x) for x in dcs['B']], [Fraction(x) for x in dcs['A']],
+                         dcs['damping'], origin='replay')
+        if 'shift' in inp:
+            shift_case(int(inp['shift']['a']), int(inp['shift']['b']))
+        if 'hyperbolic' in inp:
+            h = inp['hyperbolic']
+            chk.coverage['replayed'] = h
+            hyper_case(h['form'], Fraction(h['a']), Fraction(h['b']), Fraction(h['c']), Fraction(h['d']), Fraction(h['T']), Fraction(h['const']),
+                       h['over_s'], h['options'], origin='replay')
         if 'undef' in inp:
             u = inp['undef']
             chk.coverage['replayed'] = u
@@ -1081,6 +1363,12 @@ def run(chk, replay=None):
         ts0 = time.time()
         undef_stage()
         stage_s['undef'] = round(time.time() - ts0, 1)
+        ts0 = time.time()
+        hyper_stage()
+        stage_s['hyperbolic'] = round(time.time() - ts0, 1)
+        ts0 = time.time()
+        damping_stage()
+        stage_s['damping'] = round(time.time() - ts0, 1)
     ts0 = time.time()
     # ---- directed stream 1: second-order sections with damped_sin=True (do_damped_sin: strictly proper with constant /
     # first-order numerator, biproper; every zero pattern of the numerator coefficients; under/over/critically damped,
